@@ -580,8 +580,23 @@ def r4_rebuild(run, w):
              [n for n in encl if not is_type_test(n.stmt.test) and
               "type" not in [c.value for c in ast.walk(n.stmt.test)
                              if isinstance(c, ast.Constant)]]
+      def value_dependent(t):
+        # a predicate on the *value* of the new type (prefix test, equality, membership)
+        for x in ast.walk(t):
+          if isinstance(x, ast.Call) and isinstance(x.func, ast.Attribute) and \
+              x.func.attr in ("startswith", "endswith") and \
+              "type" in [c.value for c in ast.walk(x.func.value) if isinstance(c, ast.Constant)]:
+            return True
+          if isinstance(x, ast.Compare) and isinstance(x.ops[0], (ast.Eq, ast.NotEq)) and \
+              "type" in [c.value for c in ast.walk(x) if isinstance(c, ast.Constant)]:
+            return True
+        return False
+      valdep = [n for n in encl if value_dependent(n.stmt.test)]
       if over:
         wit = "also guarded by: " + "; ".join(short(n.stmt.test) for n in over)
+      elif valdep:
+        wit = "rebuild depends on the value of the new type: " + \
+            "; ".join(short(n.stmt.test) for n in valdep)
       else:
         raise AnalysisError("doModifyColumn: cannot interpret the guard of the reverse-column "
                             "rebuild: %s" % "; ".join(short(n.stmt.test) for n in encl))
